@@ -108,7 +108,7 @@ class UnitGen:
                     continue
                 anchors = [{'id': p.id, 'place': p.place, 'anchor': p.anchor, 'nth': p.nth} for p in f.proofs]
                 opts = {'anchors': anchors if self.fn_modes[f.path] == 'verify' else [],
-                        'sites': {str(k): v for k, v in f.sites.items()},
+                        'sites': dict([('*', m.sitedefault)] if m.sitedefault else [], **{str(k): v for k, v in f.sites.items()}),
                         'lifts': {str(k): v for k, v in f.lifts.items()},
                         'substs': [[a, b] for (a, b, _) in f.substs],
                         'renames': f.renames, 'aliases': f.aliases,
@@ -389,7 +389,18 @@ class UnitGen:
             raise S.SpecError('duplicate clause id %s' % cid)
         c.id = cid
         c.fn = f.path
-        c.eff_tags = c.tags if c.tags else f.tags
+        if c.tags:
+            c.eff_tags = c.tags
+        elif c.kind in ('invariant', 'invariant_except_break', 'decreases') or (c.kind == 'ensures' and c not in f.clauses):
+            # an untagged loop clause supports every contract clause of its function
+            t = list(f.tags)
+            for c2 in f.clauses:
+                for x in c2.tags:
+                    if x not in t:
+                        t.append(x)
+            c.eff_tags = t
+        else:
+            c.eff_tags = f.tags
         self.clauses[cid] = c
 
     def _emit_clause_text(self, c, cid, fnpath, indent, term):
